@@ -51,6 +51,7 @@ type Step struct {
 	Push  string       `json:"push,omitempty"`
 	D     int          `json:"d,omitempty"`     // advance: ms; push: deadline ms (0 = none)
 	Burst bool         `json:"burst,omitempty"` // do not settle after this step: it races with the next one
+	After int          `json:"after,omitempty"` // release / cancel: takes effect this many fake nanoseconds later (only useful inside a burst)
 }
 
 func (s Step) String() string {
@@ -62,8 +63,14 @@ func (s Step) String() string {
 	case "send":
 		return b + "send " + string(s.Rec)
 	case "release":
+		if s.After > 0 {
+			return fmt.Sprintf("%srelease k=%d %s after %dns", b, s.K, s.Out, s.After)
+		}
 		return fmt.Sprintf("%srelease k=%d %s", b, s.K, s.Out)
 	case "cancel":
+		if s.After > 0 {
+			return fmt.Sprintf("%scancel %s after %dns", b, s.ID, s.After)
+		}
 		return b + "cancel " + s.ID
 	case "push":
 		return fmt.Sprintf("%spush %s #%d d=%d", b, s.Push, s.K, s.D)
@@ -503,18 +510,34 @@ func (w *world) exec(i int, st Step) {
 		w.log(Event{Kind: "queue", Data: string(st.Rec)})
 		w.peerQ <- append([]byte(nil), st.Rec...)
 	case "release":
-		w.log(Event{Kind: "release", K: st.K, Ret: st.Out})
 		out := st.Out
 		if out == "" {
 			out = "ok"
 		}
-		select {
-		case w.gate(st.K) <- out:
-		default:
+		rel := func() {
+			w.log(Event{Kind: "release", K: st.K, Ret: st.Out})
+			select {
+			case w.gate(st.K) <- out:
+			default:
+			}
+		}
+		if st.After > 0 {
+			go func() {
+				w.sched.Sleep(time.Duration(st.After))
+				rel()
+			}()
+		} else {
+			rel()
 		}
 	case "cancel":
-		w.log(Event{Kind: "cancel", ID: st.ID})
-		go w.srv.CancelRequest(st.ID)
+		go func() {
+			if st.After > 0 {
+				w.sched.Sleep(time.Duration(st.After))
+			}
+			w.log(Event{Kind: "cancel", ID: st.ID})
+			w.srv.CancelRequest(st.ID)
+			w.log(Event{Kind: "cancel-done", ID: st.ID})
+		}()
 	case "stop":
 		w.log(Event{Kind: "stop"})
 		go w.srv.Stop()
@@ -729,6 +752,22 @@ func Run(t *testing.T, sc Scenario) (h *History) {
 	synctest.Test(t, func(t *testing.T) {
 		w = &world{t: t, t0: time.Now(), cfg: sc.Cfg, sched: sched, gates: map[int]chan string{}, parked: map[int]bool{},
 			pushCtx: map[int]context.CancelFunc{}, drain: make(chan struct{}), statusSet: map[int]bool{}}
+		sched.Trace = func(site, key, phase string) {
+			// where a dispatched request stands relative to the slot semaphore
+			if site != "srv.invoke.acquire" {
+				return
+			}
+			var p params
+			p.K = -1
+			if json.Unmarshal([]byte(key), &p) != nil || p.K < 0 {
+				var arr []int
+				if json.Unmarshal([]byte(key), &arr) != nil || len(arr) == 0 {
+					return
+				}
+				p.K = arr[0]
+			}
+			w.log(Event{Kind: "acquire-" + phase, K: p.K})
+		}
 		h.Active0 = jrpc2.VerifServersActive()
 		opts := &jrpc2.ServerOptions{AllowPush: sc.Cfg.AllowPush, DisableBuiltin: sc.Cfg.DisableBuiltin, Concurrency: sc.Cfg.Concurrency}
 		if n := sc.Cfg.LogYield; n > 0 {
